@@ -7,7 +7,8 @@ patch=$(readlink -f "$1"); tier=$2; shift 2
 name=$(echo "$patch" | md5sum | cut -c1-8)
 wt=/tmp/mc/$name/wt; vd=/tmp/mc/$name/verif
 rm -rf /tmp/mc/$name; mkdir -p /tmp/mc/$name "$vd"
-git -C /repo worktree add --detach "$wt" HEAD >/dev/null 2>&1 || { echo "worktree failed"; exit 2; }
+for try in 1 2 3 4 5 6; do git -C /repo worktree add --detach "$wt" HEAD >/dev/null 2>&1 && break; sleep $((RANDOM % 5 + 1)); done
+[ -d "$wt" ] || { echo "worktree failed"; exit 2; }
 git -C "$wt" apply "$patch" || { echo "patch does not apply"; git -C /repo worktree remove --force "$wt"; exit 2; }
 ln -s /verif/harness "$vd/harness"; cp /verif/known_findings.json "$vd/"
 export GOFLAGS=-mod=mod GOPROXY=off GOSUMDB=off GOTOOLCHAIN=local
